@@ -1782,5 +1782,31 @@ Proof. intros a b s H. destruct (initU_good a b s H) as [_ Hc]. apply (Hc (sheig
 Example initU_instance :
   exists s, initU (Lst true true [Leaf (Build_leaf KStr [97;98] 0 0); Lst true true [Leaf (Build_leaf KInt [49] 1 0)]])
                   (Lst true true [Leaf (Build_leaf KStr [97;99] 0 0); Lst true true [Leaf (Build_leaf KInt [50] 2 0)];
-                                  Leaf (Build_leaf KNull [] 0 0)]) = Some s /\ sheight s = 2%nat /\ bndU s = (1, 12).
+                                  Leaf (Build_leaf KNull [] 0 0)]) = Some s /\ sheight s = 2%nat /\ bndU s = (1, 13).
 Proof. eexists. split; [vm_compute; reflexivity|]. split; reflexivity. Qed.
+
+(* the executable statement (the boolean evaluated on the implementation's traces) on the model's own trace *)
+Theorem model_trace_holds : forall a b s, initU a b = Some s ->
+  holds_events (trace_of (UM (sheight s)) (S (S (Z.to_nat (width (bndU s))))) s) = true.
+Proof.
+  intros a b s H. destruct (initU_contract a b s H) as [v Hv].
+  apply (contract_trace_holds (UM (sheight s)) s v); [exact Hv|]. cbn [UM bnd]. lia.
+Qed.
+
+Lemma nat_max_list_zero : forall l, (forall x, In x l -> x = O) -> nat_max_list l = O.
+Proof.
+  induction l as [|y l IH]; intros H; [reflexivity|]. cbn [nat_max_list].
+  rewrite (H y (or_introl eq_refl)), IH; [reflexivity|]. intros x Hx. apply H. right. exact Hx.
+Qed.
+
+Lemma str_state_height : forall s t, sheight (str_state s t) = 1%nat.
+Proof.
+  intros s t. unfold str_state. destruct (trim Z.eqb s t) as [p q]. cbn [sheight ed_init e_kids]. f_equal.
+  apply nat_max_list_zero. intros x Hx. apply in_map_iff in Hx. destruct Hx as (row & <- & Hrow).
+  apply in_map_iff in Hrow. destruct Hrow as (d & <- & _).
+  apply nat_max_list_zero. intros y Hy. apply in_map_iff in Hy. destruct Hy as (k & <- & Hk).
+  apply in_map_iff in Hk. destruct Hk as (c & <- & _). reflexivity.
+Qed.
+
+Theorem str_contract : forall s t d, exists v, ContractV true (UM (S d)) (str_state s t) v.
+Proof. intros s t d. destruct (good_str s t) as [_ H]. apply H. rewrite str_state_height. lia. Qed.
